@@ -165,6 +165,9 @@ type X struct {
 	opIdx int
 	stop  bool // a violation that makes continuing meaningless was recorded
 	suppress bool // only the oracles that hold for every response apply
+	pendingResync bool
+	allResynced bool // every violation so far was re-synchronised
+	resynced bool // the last violation was attributed to a known family and the model was re-synchronised: the run may go on
 	extra map[string]any
 }
 
@@ -182,7 +185,21 @@ func (x *X) viol(props []string, oracle, sig, detail string) {
 	}
 	v := Violation{Props: props, Oracle: oracle, Sig: oracle + ":" + sig, Detail: detail, Step: x.sim.Steps,
 		SimTime: time.Since(x.start).String(), OpIndex: x.opIdx}
+	if len(x.out.Viol) == 0 {
+		x.allResynced = true
+	}
 	x.out.Viol = append(x.out.Viol, v)
+	x.pendingResync = false
+}
+
+// resync marks the violation just recorded as attributed to a known family after the model was adjusted.
+func (x *X) resync() { x.resynced = true }
+
+// endOp is called by the engine after each operation: a violation that was not re-synchronised ends clean continuation.
+func (x *X) noteViolations(before int) {
+	if len(x.out.Viol) > before && !x.resynced {
+		x.allResynced = false
+	}
 }
 
 func (x *X) mix(vals ...uint64) {
@@ -221,7 +238,9 @@ func runPlan(t *testing.T, p *Plan) (out *RunOut) {
 		out.Infra = "mkdtemp: " + err.Error()
 		return
 	}
-	defer os.RemoveAll(root)
+	if os.Getenv("VERIF_KEEP") == "" {
+		defer os.RemoveAll(root)
+	}
 	mk := func(vals []uint32, salt uint64) *simrt.Stream {
 		st := simrt.NewStream(p.Seed ^ salt)
 		st.Vals = append([]uint32(nil), vals...)
@@ -413,14 +432,31 @@ func isKnown(kf []knownFinding, prop, sig string) bool {
 		if k.Status != "known" || k.Property != prop {
 			continue
 		}
-		if k.Signature == sig {
-			return true
-		}
-		if strings.HasSuffix(k.Signature, "*") && strings.HasPrefix(sig, strings.TrimSuffix(k.Signature, "*")) {
+		if wildMatch(k.Signature, sig) {
 			return true
 		}
 	}
 	return false
+}
+
+// wildMatch matches s against a pattern in which '*' stands for any (possibly empty) substring.
+func wildMatch(pat, s string) bool {
+	parts := strings.Split(pat, "*")
+	if len(parts) == 1 {
+		return pat == s
+	}
+	if !strings.HasPrefix(s, parts[0]) {
+		return false
+	}
+	s = s[len(parts[0]):]
+	for i := 1; i < len(parts)-1; i++ {
+		j := strings.Index(s, parts[i])
+		if j < 0 {
+			return false
+		}
+		s = s[j+len(parts[i]):]
+	}
+	return strings.HasSuffix(s, parts[len(parts)-1])
 }
 
 func envInt(name string, def int) int {
@@ -549,9 +585,11 @@ func TestVerif(t *testing.T) {
 			if os.Getenv("VERIF_DEBUG") != "" && !dbgSeen[v.Sig] {
 				dbgSeen[v.Sig] = true
 				fmt.Printf("DEBUG viol idx=%d seed=%d props=%v sig=%s op=%d\n   %s\n", idx, p.Seed, v.Props, v.Sig, v.OpIndex, v.Detail)
-				if v.OpIndex < len(p.Clients[0]) {
-					fmt.Printf("   op: %s\n   knobs: %+v\n", p.Clients[0][v.OpIndex], p.Knobs)
+				if len(p.Clients) > 0 && v.OpIndex < len(p.Clients[0]) {
+					fmt.Printf("   op: %s\n", p.Clients[0][v.OpIndex])
 				}
+				kb, _ := json.Marshal(p.Knobs)
+				fmt.Printf("   knobs: %s extra: %v\n", kb, p.Extra)
 			}
 			if !v.speaksFor(prop) {
 				sum.Observed[v.Oracle]++
